@@ -22,6 +22,18 @@ Tie to /repo:
       (in-place reconfigure / anneal / forest, slice+unslice, queries, a seeded call with another
       seed), on copies, and through the inplace variant on two copies and on the original
       (c17_worker.same_object_checks).  This is also the implementation-side oracle.
+
+Round 3:
+  (F'') `Generated/FactsC17Rng.lean`: skeletons of the variables that carry the seed / a generator
+      (harness/c17_rngflow.py), checked by the kernel with the verified analysis `RFlow.analyse`
+      (`C17.rng_dataflow_seeded`); the Python mirror of the analysis decides the edge modes of the
+      call graph and is compared with Lean's on every skeleton (`c17.rngflow`);
+  `rdSched`: pool results consumed in completion order (`as_completed`, `wait`) -- fourth source of
+      the flow model;  `parallel=` may be an executor object: the worker's OrderedPool completes
+      the futures FIFO / LIFO / shuffled (one order per interpreter), and the forest's rounds as
+      seen by the pool are compared with `Model/Gather.lean` (`c17.gather`);
+  the state of the global `random` / `numpy.random` generators is compared before / after every
+      seeded call (`Flow.clean_leaves_global_untouched`);  `c17.getrng`: every branch of get_rng.
 """
 
 import json
